@@ -49,6 +49,10 @@ def generate(rng, tier):
                 for ds in (1, 0):
                     yield {"kind": "plain", "apdu": apdu, "tpci": tp, "keyed": keyed, "ds": ds,
                            "ctrl1": rng.choice([0xBC, 0x94, 0xB0, 0x3C])}
+    # a key table entry with an empty key is treated as "no key" (`if key := table.get(dst)`)
+    for apdu in valid[:4]:
+        yield {"kind": "emptykey", "apdu": apdu, "dir": "in"}
+        yield {"kind": "emptykey", "apdu": apdu, "dir": "out"}
     seq = 10
     lens = [0, 1, 2, 3, 5, 8, 12] if tier == "quick" else list(range(0, 16)) + [20, 40, 100, 200, 238]
     for apdu in ("-", "00", "03", "ff"):
@@ -103,6 +107,23 @@ def run_impl(c):
         tp = 0
         line = f"dsec out {DST_KEYED}:{KEY.hex()} {c['seq']} {ctrl} {0x1234} {c['dst']} {tp} P {c['apdu']}"
         return {"out": out + flag, "line": line, "expect": out}
+    if k == "emptykey":
+        (r, issues), keys = mk_xknx(0x1234, {DST_KEYED: b""}, {SRC: 5}, 7), {DST_KEYED: b""}
+        if c["dir"] == "out":
+            tg = Telegram(destination_address=GroupAddress(DST_KEYED), payload=APCI.from_knx(unhx(c["apdu"])))
+            cemi, exc = send(r, tg)
+            ds = r.cemi_handler.data_secure
+            out = f"raised {exc} {ds._sequence_number_sending}" if exc else (
+                f"secured {hx(cemi.data.payload.to_knx())} {ds._sequence_number_sending}"
+                if isinstance(cemi.data.payload, apci.SecureAPDU) else f"plain {ds._sequence_number_sending}")
+            return {"out": out, "line": f"dsec out {DST_KEYED}: 7 {0xBCE0} {0x1234} {DST_KEYED} 0 P {c['apdu']}",
+                    "expect": out}
+        apdu = unhx(c["apdu"])
+        raw = build_ldata(0x29, 0xBCE0, SRC, DST_KEYED, apdu)
+        obs = receive_raw(r, issues, raw)
+        out = route_of(obs)
+        return {"out": out, "line": f"dsec recv {DST_KEYED}: {SRC}:5 7 {0xBCE0} {SRC} {DST_KEYED} 0 P {c['apdu']} 1",
+                "expect": out}
     if k == "plain":
         tp = mk_tpci(c["tpci"]).to_knx()
         dst = 0 if c["tpci"][0] == "TDataBroadcast" else (DST_KEYED if c["keyed"] else DST_FREE)
@@ -141,6 +162,8 @@ def run_impl(c):
 
 def oracle(c, out):
     k = c["kind"]
+    if k == "emptykey":
+        return None if not out.startswith("raised") else f"empty key entry made the path raise: {out}"
     if out.startswith("raised"):
         return f"the {'send' if k == 'out' else 'receive'} path raised {out.split()[1]} ({k}, {c.get('apdu', c.get('tpdu'))})"
     if k == "out":
